@@ -162,6 +162,7 @@ def check(rep, an, tier):
                     R.rule_block_cover(rep, res, entry)
                     CC.membership_frames(rep, res, entry)
                     CC.corner_subset(rep, res, entry)
+                    CC.hull_spans_bounds(rep, res, entry)
                     if meth == "hull_dist_scaling":
                         CC.vertex_set(rep, res, entry)
                     if meth == "hull_dist_scaling":
